@@ -4,6 +4,7 @@ from __future__ import annotations
 import itertools
 
 import numpy
+import pandas
 
 from . import matrix_common as mc
 from .replays import _close, replay
@@ -573,6 +574,30 @@ def _(p):
     touched = [j for j, l in enumerate(labels0) if f"{p['var']}[" in l]
     if touched and not numpy.allclose(g[[1, 4]][:, touched], 0):
         return f"unseen-rows-not-zero: {g[[1, 4]][:, touched].tolist()}"
+    return None
+
+
+@replay("c09_lost_level")
+def _(p):
+    from formulaic import model_matrix
+
+    dtrain = mc.full_frame(_A_TRAIN, _B_TRAIN)
+    out = p["output"]
+    dense = lambda m: numpy.asarray(m.todense() if out == "sparse" else m, dtype=float).reshape((-1, len(m.model_spec.column_names)))
+    mm = model_matrix(p["formula"], dtrain, output=out)
+    spec, names, ref = mm.model_spec, list(mm.model_spec.column_names), dense(mm)
+    keep = [i for i, v in enumerate(mc.A_ROWS) if v != p["lost"]]
+    follow = dtrain.iloc[keep].reset_index(drop=True)
+    follow["A"] = pandas.Categorical(list(follow["A"]))  # re-declared from the observed values: the lost level is gone from the dtype too
+    try:
+        got = spec.get_model_matrix(follow)
+    except Exception as e:
+        return f"raises: {p['formula']!r} ({out}): follow-up data without level {p['lost']!r} raised {type(e).__name__}: {str(e)[:100]}"
+    if list(got.model_spec.column_names) != names:
+        return f"columns-changed: {p['formula']!r} ({out}): {list(got.model_spec.column_names)} vs recorded {names}"
+    g = dense(got)
+    if g.shape != (len(keep), len(names)) or not numpy.allclose(g, ref[keep], rtol=1e-9, atol=1e-12):
+        return f"cells-changed: {p['formula']!r} ({out}): without the rows of level {p['lost']!r} the remaining rows are not encoded as at training time"
     return None
 
 
